@@ -3,32 +3,40 @@
 rule instances fire: seeded/<id>/meta.json gets `caught_by`, seeded/RESULTS.md the table. usage: sweep_seeded.py [ids…]"""
 import json, os, subprocess, sys, glob, re
 HERE = os.path.dirname(os.path.dirname(os.path.abspath(__file__)))
-EXTRA = {"C10": ["C04", "C02"], "C18": ["C08", "C12"], "C15": ["C04"], "C04": ["C10"], "C01": ["C12"], "C12": ["C01", "C18"], "C16": ["C17"], "C05": [], "C20": ["C08"]}
+EXTRA = {"C14": ["C02"], "C17": ["C09"], "C07": ["C01"], "C10": ["C04", "C02"], "C18": ["C08", "C12"], "C15": ["C04"], "C04": ["C10"], "C01": ["C12"], "C12": ["C01", "C18"], "C16": ["C17"], "C05": [], "C20": ["C08"]}
 
 def sh(cmd, cwd=None, timeout=1800):
     return subprocess.run(cmd, shell=True, cwd=cwd, capture_output=True, text=True, timeout=timeout)
 
 def main():
     ids = sys.argv[1:] or sorted(os.path.basename(d) for d in glob.glob(os.path.join(HERE, "seeded", "C*-m*")))
-    if sh("git diff --quiet", "/repo").returncode != 0:
+    # SWEEP_ROOT=<dir>: work on a scratch export of /repo HEAD (git archive) instead of /repo itself, so that /repo stays
+    # free for the registered checks while a long sweep runs
+    ROOT = os.environ.get("SWEEP_ROOT")
+    if ROOT:
+        sh("rm -rf %s && mkdir -p %s && git -C /repo archive HEAD crates Cargo.toml Cargo.lock examples | tar -x -C %s" % (ROOT, ROOT, ROOT))
+    elif sh("git diff --quiet", "/repo").returncode != 0:
         print("/repo is dirty"); return 2
     rows = []
     for sid in ids:
         d = os.path.join(HERE, "seeded", sid)
         meta = json.load(open(os.path.join(d, "meta.json")))
         prop = meta["property"]
-        r = sh("git apply %s/patch.diff" % d, "/repo")
+        r = sh("patch -p1 -s -F0 -i %s/patch.diff" % d, ROOT) if ROOT else sh("git apply %s/patch.diff" % d, "/repo")
         if r.returncode != 0:
-            rows.append((sid, prop, "PATCH-DOES-NOT-APPLY", [])); print(sid, "patch does not apply:", r.stderr[:200]); continue
+            rows.append((sid, prop, "PATCH-DOES-NOT-APPLY", [])); print(sid, "patch does not apply:", (r.stdout + r.stderr)[:200])
+            if ROOT:
+                sh("find . -name '*.rej' -delete -o -name '*.orig' -delete; git -C /repo archive HEAD crates | tar -x -C %s" % ROOT, ROOT)
+            continue
         caught = {}
         try:
             for c in [prop] + EXTRA.get(prop, []):
-                o = sh("VERIF_EVIDENCE_DIR=/tmp/verif-sweep-ev ./check %s" % c, HERE)
+                o = sh(("VERIF_REPO=%s VERIF_CACHE=%s-cache VERIF_FLOW_TARGET=%s " % (ROOT, ROOT, os.path.join(HERE, ".cache", "flow-target")) if ROOT else "") + "VERIF_EVIDENCE_DIR=/tmp/verif-sweep-ev ./check %s" % c, HERE)
                 fails = [l for l in o.stdout.splitlines() if l.startswith("FAIL ")]
                 if fails and "VIOLATION property=%s" % c in o.stdout:
                     caught[c] = [re.sub(r" @ .*$", "", f[5:])[:140] for f in fails][:4]
         finally:
-            sh("git checkout -- .", "/repo")
+            sh("patch -p1 -R -s -i %s/patch.diff" % d, ROOT) if ROOT else sh("git checkout -- .", "/repo")
         meta["caught_by"] = caught
         meta["caught_by_own_property_check"] = prop in caught
         json.dump(meta, open(os.path.join(d, "meta.json"), "w"), indent=1)
